@@ -14,7 +14,7 @@ def build(tier):
         k, r, n1, sd = cfg
         n = k + r
         for pi, pat in enumerate(all_patterns(n)):
-            combos = [(0, 0), (0, 1), (1, 1)] if (n <= 5 or tier == "thorough") else [((pi + ci) % 2, 1)]
+            combos = [(0, 0), (0, 1), (1, 1)] if tier == "thorough" else ([(0, pi % 2), (1, 1)] if n <= 5 else [((pi + ci) % 2, 1)])
             for api, fin in combos:
                 variants = [pi % 5] if tier == "quick" else [0, 1, 3, 4]
                 for v in (variants if api == 0 else [0]):
@@ -23,10 +23,10 @@ def build(tier):
     if tier == "quick":
         cfg = (3, 4, 4, 1)          # even N1: pre-injected null last repair symbol
         for pi, pat in enumerate(all_patterns(7)):
-            if pi % 2 == seed % 2:
-                qs.append(ldpc_cycle("C01", cfg, pat, 8, pi % 3 == 0, 1, pi % 5, EN))
+            if pi % 3 == seed % 3:
+                qs.append(ldpc_cycle("C01", cfg, pat, 8, int(pi % 2 == 0), 1, pi % 5, EN))
     # ---- Reed-Solomon GF(2^m): all 2^n received sets
-    rs = [(4, 2, 2, "full"), (4, 3, 3, "one"), (8, 2, 2, "full"), (8, 3, 2, "one")] if tier == "quick" else \
+    rs = [(4, 2, 2, "full"), (4, 3, 2, "one"), (8, 2, 2, "full"), (8, 2, 3, "one")] if tier == "quick" else \
          [(4, 2, 2, "full"), (4, 3, 3, "full"), (4, 4, 3, "one"), (4, 5, 3, "one"), (4, 2, 6, "one"), (4, 6, 2, "one"),
           (8, 2, 2, "full"), (8, 3, 2, "one"), (8, 3, 3, "one"), (8, 4, 2, "one"), (8, 2, 4, "one")]
     for m, k, r, data in rs:
@@ -36,6 +36,15 @@ def build(tier):
             fin = 1 if api == 1 else (pi // 2) % 2
             ln = (1, 2)[pi % 2] if data == "full" else (3, 17)[pi % 2]
             qs.append(rs_cycle("C01", RS2M, k, r, ln, m, pat, api, fin, pi % 5, EN + ("C02",), data=data))
+    # codec 1 (legacy GF(2^8)): ~100 s per query, so a few received sets only
+    c1 = [(2, 2)] if tier == "quick" else [(2, 2), (3, 2), (2, 3)]
+    for k, r in c1:
+        n = k + r
+        pats = all_patterns(n)
+        if tier == "quick":
+            pats = [p for p in pats if len(p) >= k][::3]
+        for pi, pat in enumerate(pats):
+            qs.append(rs_cycle("C01", RS28, k, r, 1 + pi % 2, 8, pat, pi % 2, 1, pi % 5, EN + ("C02",), data=("full" if k == 2 else "one"), timeout=1500))
     meta = dict(
         units=["src/lib_common/of_openfec_api.c", "src/lib_stable/ldpc_staircase/*.c", "src/lib_common/linear_binary_codes_utils/**/*.c",
                "src/lib_stable/reed-solomon_gf_2_m/**/*.c"],
@@ -43,6 +52,6 @@ def build(tier):
                            "of_set_available_symbols", "of_finish_decoding", "of_is_decoding_complete", "of_get_source_symbols_tab",
                            "of_release_codec_instance", "and everything they reach (IT/ML decoders, sparse/dense matrices, RS matrix inversion)"],
         bounds="LDPC-Staircase (k,r,N1,seed) in %s: every one of the 2^n received sets, orders {index, reverse, rotation, duplicated}, both submission APIs, with/without of_finish_decoding, len in {1,9,13}; all k*len source bytes symbolic. RS GF(2^m) (m,k,r,data) in %s: every received set; data=full: all source bytes symbolic, data=one: one source symbol (chosen by the solver) fully symbolic, the others fixed pseudo-random bytes" % (cfgs, rs),
-        outside_bounds="codec 1 (legacy RS GF(2^8)) decoding: its 255-entry local arrays defeat CBMC's constant propagation (no verdict; see DESIGN); larger k; RS with more than one free source symbol for k>3 (SAT-hard); received sets of larger codes",
-        stubs=[RS_STUB], assumptions=STD_ASSUMPTIONS, exhaustive=False)
+        outside_bounds="codec 1 (legacy RS GF(2^8)) only on (2,2) [thorough: (3,2),(2,3)] (about 100 s per received set); larger k; RS with more than one free source symbol for k>3 (SAT-hard); received sets of larger codes",
+        stubs=[RS_STUB, RS28_TABLES], assumptions=STD_ASSUMPTIONS, exhaustive=False)
     return qs, meta
